@@ -75,7 +75,19 @@ def gen_rule_file(rng, gen, multiline_string=False, arith=True):
                 parts.append(rng.choice([' ', ' ', '  ', '\t']))
         parts.append(t)
     qtext = ''.join(parts)
-    text = '/**' + eol + ''.join(' * %s %s%s' % (k, v, eol) for k, v in fields) + ' */' + eol + rng.choice(['', eol]) + qtext + rng.choice(['', eol])
+    # line endings that are not the same throughout the file: an LF header above a CRLF query (a pasted header), one
+    # CRLF line among LF lines, alternating endings
+    mixed = rng.random() < 0.2 and not multiline_string
+    if mixed:
+        mode = rng.choice(['lf_header_crlf_query', 'one_crlf_line', 'alternating', 'crlf_header_lf_query'])
+        hl = lambda i: {'lf_header_crlf_query': '\n', 'crlf_header_lf_query': '\r\n', 'alternating': ['\n', '\r\n'][i % 2], 'one_crlf_line': '\r\n' if i == 1 else '\n'}[mode]
+        qeol = {'lf_header_crlf_query': '\r\n', 'crlf_header_lf_query': '\n', 'alternating': None, 'one_crlf_line': '\n'}[mode]
+        qlines = qtext.replace('\r\n', '\n').split('\n')
+        qtext = ''.join(l + ((qeol or ['\r\n', '\n'][j % 2]) if j < len(qlines) - 1 else '') for j, l in enumerate(qlines))
+        text = '/**' + hl(0) + ''.join(' * %s %s%s' % (k, v, hl(i + 1)) for i, (k, v) in enumerate(fields)) + ' */' + hl(len(fields) + 1) + qtext + rng.choice(['', '\n', '\r\n'])
+        crlf = True
+    else:
+        text = '/**' + eol + ''.join(' * %s %s%s' % (k, v, eol) for k, v in fields) + ' */' + eol + rng.choice(['', eol]) + qtext + rng.choice(['', eol])
     hdr = {}
     for k, v in fields:
         hdr[k] = v
